@@ -30,6 +30,7 @@ func checkC20(c *Ctx) {
 	c.checkCtrlParamsDynamicType()
 	c.checkResultNotReallocated()
 	c.checkScalarCodecPairs()
+	c.checkP2PNameExactLength()
 	c.checkActingUserNotSession("C20.4d-p2p-name-of-acting-user", "p2p-name")
 }
 
